@@ -44,7 +44,16 @@ D2 == {Op(o, <<d, a>>) : o \in {"and", "or", "implies", "iff"}, d \in D1s, a \in
       \cup {Op("ite", <<a, d, b>>) : d \in D1s, a \in {P, LeXY}, b \in {Q, Tt}}
       \cup {Op("and", <<d, d, a>>) : d \in D1s, a \in {Q}}
 D3 == {Op("not", <<d>>) : d \in D2} \cup {Op(o, <<d, Op("not", <<d2>>)>>) : o \in {"and", "or"}, d \in {Op("iff", <<P, Q>>), Op("implies", <<LeXY, P>>)}, d2 \in D1s}
-QF == D1f \cup D2 \cup D3
+\* a NEGATED COMPOUND sub-formula that is needed in both polarities: below iff, as the condition of an ite, and shared
+\* between a positive and a negative context
+NegC == {Op("not", <<c>>) : c \in {Op("and", <<P, Q>>), Op("or", <<P, LeXY>>), Op("implies", <<Q, P>>), Op("iff", <<P, Q>>),
+                                    Op("ite", <<P, Q, LeXY>>)}}
+D4 == {Op("iff", <<n, a>>) : n \in NegC, a \in {R, LeXY}} \cup {Op("iff", <<a, n>>) : n \in NegC, a \in {R}}
+      \cup {Op("ite", <<n, a, b>>) : n \in NegC, a \in {R}, b \in {EqBC, Ff}}
+      \cup {Op("and", <<Op("implies", <<n, R>>), Op("implies", <<EqBC, n>>)>>) : n \in NegC}
+      \cup {Op("or", <<Op("and", <<n, R>>), Op("not", <<Op("or", <<n, EqBC>>)>>)>>) : n \in NegC}
+      \cup {Op("iff", <<n, m>>) : n \in NegC, m \in NegC}
+QF == D1f \cup D2 \cup D3 \cup D4
 
 VarSets == {<<BVar("p", TBool)>>, <<BVar("b", TBV(2))>>, <<BVar("p", TBool), BVar("q", TBool)>>, <<BVar("x", TInt)>>}
 Qn == {"forall", "exists"}
@@ -121,7 +130,7 @@ WIDE == UNION {{Op(o, WideArgs(n)), Op(o, NegOdd(WideArgs(n))), Op("not", <<Op(o
                 Op("implies", <<Op(o, WideArgs(n)), W(1)>>), Op("iff", <<Op("and", WideArgs(n)), Op("or", WideArgs(n))>>)}
                : o \in {"and", "or"}, n \in 3..14}
 
-Corpus == CASE Layer = "WIDE" -> WIDE [] Layer = "QF" -> QF [] Layer = "QB" -> QB [] Layer = "ARITH" -> ARITH [] Layer = "EQS" -> EQS [] Layer = "UF" -> UF
+Corpus == CASE Layer = "WIDE" -> WIDE [] Layer = "POL" -> D4 [] Layer = "QF" -> QF [] Layer = "QB" -> QB [] Layer = "ARITH" -> ARITH [] Layer = "EQS" -> EQS [] Layer = "UF" -> UF
 
 VARIABLE done
 Init == done = FALSE /\ LET c == SetToSeq(Corpus)
